@@ -75,7 +75,7 @@ ASSUMPTIONS = [
 # several transitions into the same task, joins (also with a count below the number of inbound
 # tasks), retries (staged entry rebuilt from the record), loops, reruns
 FAM = progs.family(
-    n_tasks=(2, 7), fanout=(1, 3), p_second_transition=0.5, p_items=0.4, p_join=0.7, p_join_count=0.5,
+    p_persist_first=0.25, p_bad=0.04, n_tasks=(2, 7), fanout=(1, 3), p_second_transition=0.5, p_items=0.4, p_join=0.7, p_join_count=0.5,
     p_late_join=0.45, p_retry=0.3, p_loop=0.3, p_cmd=0.1, p_delay=0.05,
     steps=(12, 70), w_persist=0.0, w_ctrl=0.7, w_rerun=0.8, w_malformed=0.15, p_fail=0.25, p_item_fail=0.2)
 
